@@ -45,6 +45,7 @@ type c12Input struct {
 	Readers int    `json:"readers"` // reader goroutines
 	Ops     []int  `json:"ops"`     // driver actions: 0 change+refresh 1 hold 2 failing 3 expiry 4 lookup 5 burst of changes
 	Procs   int    `json:"procs"`   // GOMAXPROCS of the child
+	CloseFail bool `json:"close_fail,omitempty"` // the final cache flush at Close fails
 }
 
 // ---------------------------------------------------------------- values
@@ -118,6 +119,8 @@ type c12Svc struct {
 	hold     chan struct{}     // non-nil: requests block until it is closed
 	blocked  atomic.Int64      // requests currently blocked on hold
 	failing  atomic.Bool
+	top       map[string]uint32 // highest version ever created per name
+	rollbacks int
 }
 
 func (s *c12Svc) logServe(name string, v uint32) {
@@ -180,10 +183,28 @@ func (s *c12Svc) GetIfChanged(ctx context.Context, name string, old api.SecretVe
 	return &api.SecretValue{Version: api.SecretVersion(v), Value: append([]byte(nil), c12Render(name, v)...)}, nil
 }
 
-func (s *c12Svc) bump(name string) {
+// bump changes the active version of name: a brand-new version, or (roll > 0 and older versions
+// exist) a RE-ACTIVATION of an older one - for the store a new install of bytes it has seen before.
+func (s *c12Svc) bump(name string, roll int) {
 	s.mu.Lock()
-	s.active[name]++
-	s.mu.Unlock()
+	defer s.mu.Unlock()
+	if s.top == nil {
+		s.top = map[string]uint32{}
+	}
+	if s.top[name] < s.active[name] {
+		s.top[name] = s.active[name]
+	}
+	if roll > 0 && s.top[name] > 1 {
+		v := 1 + uint32(roll)%s.top[name]
+		if v == s.active[name] {
+			v = 1 + v%s.top[name]
+		}
+		s.active[name] = v
+		s.rollbacks++
+		return
+	}
+	s.top[name]++
+	s.active[name] = s.top[name]
 }
 
 func (s *c12Svc) setHold(on bool) {
@@ -198,12 +219,18 @@ func (s *c12Svc) setHold(on bool) {
 }
 
 type c12Cache struct {
-	mu   sync.Mutex
-	data []byte
+	mu       sync.Mutex
+	data     []byte
+	failNext atomic.Bool // the next Write fails
+	failed   atomic.Int64
 }
 
 func (c *c12Cache) Read() ([]byte, error) { c.mu.Lock(); defer c.mu.Unlock(); return c.data, nil }
 func (c *c12Cache) Write(b []byte) error {
+	if c.failNext.CompareAndSwap(true, false) {
+		c.failed.Add(1)
+		return errors.New("scripted cache failure")
+	}
 	c.mu.Lock()
 	defer c.mu.Unlock()
 	c.data = append([]byte(nil), b...)
@@ -473,7 +500,7 @@ func c12Child(in c12Input) c12Result {
 		switch op {
 		case 0: // change some names, refresh
 			for k := 0; k <= rng.IntN(3); k++ {
-				svc.bump(all[rng.IntN(len(all))])
+				svc.bump(all[rng.IntN(len(all))], rng.IntN(3)*rng.IntN(7))
 			}
 			err := refresh()
 			for try := 0; err != nil && try < 3; try++ { // may have joined a poll begun in a failing phase
@@ -483,16 +510,40 @@ func c12Child(in c12Input) c12Result {
 				res.Direct = "Refresh failed although the service answered every request: " + err.Error()
 			}
 			res.Stats["refresh"]++
+		case 6: // the Cache.Write of a poll's apply fails: Refresh reports it, the values are installed, reads go on
+			cache.failNext.Store(true)
+			svc.bump(decl[rng.IntN(len(decl))], 0)
+			refresh() // nil or the cache's error, depending on which poll applied the change
+			waitReads("after a poll whose cache write failed")
+			cache.failNext.Store(false)
+			res.Stats["poll-write-failed"]++
+		case 7: // the Cache.Write of a lookup fails: only logged
+			var lname string
+			if nextLook < len(look) {
+				lname = look[nextLook]
+				nextLook++
+			} else {
+				continue
+			}
+			cache.failNext.Store(true)
+			if h, err := st.LookupSecret(ctx, lname); err == nil {
+				sh.publish(lname, h)
+			} else {
+				res.Direct = "LookupSecret failed although the service answered (cache write failing): " + err.Error()
+			}
+			waitReads("after a lookup whose cache write failed")
+			cache.failNext.Store(false)
+			res.Stats["lookup-write-failed"]++
 		case 5: // changes racing with refreshes
 			for k := 0; k < 6; k++ {
-				svc.bump(all[rng.IntN(len(all))])
+				svc.bump(all[rng.IntN(len(all))], rng.IntN(3)*rng.IntN(7))
 				if k%2 == 1 {
 					refresh()
 				}
 			}
 			res.Stats["burst"]++
 		case 1: // hold the service with a poll and a lookup in flight: reads must go on
-			svc.bump(decl[rng.IntN(len(decl))])
+			svc.bump(decl[rng.IntN(len(decl))], rng.IntN(3)*rng.IntN(7))
 			svc.setHold(true)
 			done := make(chan struct{}, 2)
 			go func() { refresh(); done <- struct{}{} }()
@@ -529,7 +580,7 @@ func c12Child(in c12Input) c12Result {
 			res.Stats["failing"]++
 		case 3: // expiry sweep with a handle taken between snapshot and apply
 			clock.Add(int64(60 * time.Second))
-			svc.bump(decl[0])
+			svc.bump(decl[0], 0)
 			svc.setHold(true)
 			done := make(chan struct{}, 1)
 			go func() { refresh(); done <- struct{}{} }()
@@ -562,19 +613,51 @@ func c12Child(in c12Input) c12Result {
 			}
 		}
 	}
+	if res.Direct != "" {
+		return res // something is blocked or broken: do not wait for anybody (the process ends)
+	}
 	stopBg.Store(true)
 	wgBg.Wait()
 	if nilSecret.Load() && res.Direct == "" {
 		res.Direct = "Secret returned nil for a declared name"
 	}
 	refresh()
-	st.Close()
-	if res.Direct == "" {
-		waitReads("after Close")
+	if in.CloseFail {
+		cache.failNext.Store(true) // the poller's final flush fails
 	}
+	closed := make(chan struct{})
+	go func() { st.Close(); close(closed) }()
+	select {
+	case <-closed:
+	case <-time.After(3 * time.Second):
+		if res.Direct == "" {
+			res.Direct = "Close blocked"
+		}
+	}
+	if res.Direct == "" {
+		what := "after Close"
+		if in.CloseFail {
+			what = "after Close with a failed final cache flush"
+		}
+		waitReads(what)
+	}
+	res.Stats["cache-writes-failed"] = cache.failed.Load()
+	svc.mu.Lock()
+	res.Stats["rollbacks"] = int64(svc.rollbacks)
+	svc.mu.Unlock()
 	time.Sleep(2 * time.Millisecond)
 	stop.Store(true)
-	wgR.Wait()
+	readersDone := make(chan struct{})
+	go func() { wgR.Wait(); close(readersDone) }()
+	select {
+	case <-readersDone:
+	case <-time.After(2 * time.Second):
+		// readers stuck inside a handle: report what is known and do not touch their logs
+		if res.Direct == "" {
+			res.Direct = "read blocked: a reader did not come back from a handle call"
+		}
+		return res
+	}
 	// assemble
 	svc.mu.Lock()
 	inst := append([]c12Inst(nil), svc.installs...)
@@ -608,10 +691,11 @@ func c12Gen(rng *rand.Rand, i int) c12Input {
 		Readers: 2 + rng.IntN(4), Procs: []int{2, 4, 8, 16}[i%4]}
 	n := 10 + rng.IntN(10)
 	for k := 0; k < n; k++ {
-		in.Ops = append(in.Ops, []int{0, 0, 0, 1, 2, 3, 4, 4, 5}[rng.IntN(9)])
+		in.Ops = append(in.Ops, []int{0, 0, 0, 1, 2, 3, 4, 4, 5, 6, 7}[rng.IntN(11)])
 	}
+	in.CloseFail = i%2 == 0
 	// every scenario has at least one of each special phase
-	in.Ops = append(in.Ops, 1, 3, 0, 2, 0)
+	in.Ops = append(in.Ops, 1, 3, 0, 6, 2, 0)
 	return in
 }
 
@@ -738,15 +822,7 @@ func c12Alter(coq string, kind int) string {
 	if kind%2 == 1 {
 		return coq[:len(coq)-1] + fmt.Sprintf(";RL %s %s 777777 %s]", f[1], f[2], f[4])
 	}
-	// an older value of the same name: search the first logged read of that reader and name
-	pat := fmt.Sprintf("RL %s %s ", f[1], f[2])
-	j := strings.Index(coq, pat)
-	if j < 0 || j == i {
-		return coq[:len(coq)-1] + fmt.Sprintf(";RL %s %s 777777 %s]", f[1], f[2], f[4])
-	}
-	g := strings.Fields(strings.SplitN(coq[j:], ";", 2)[0])
-	if len(g) < 5 || g[3] == f[3] {
-		return coq[:len(coq)-1] + fmt.Sprintf(";RL %s %s 777777 %s]", f[1], f[2], f[4])
-	}
-	return coq[:len(coq)-1] + fmt.Sprintf(";RL %s %s %s %s]", f[1], f[2], g[3], f[4])
+	// (with re-activated versions "an older value" may be legitimate again: the self-test uses a
+	// version far above anything served, at a floor of 0, i.e. the never-served case once more)
+	return coq[:len(coq)-1] + fmt.Sprintf(";RL %s %s 888888 0]", f[1], f[2])
 }
